@@ -156,6 +156,8 @@ fn main() {
             "T32logu8" => tree_cmd::<tree::T32logu8>(&a),
             "T32a32u64" => tree_cmd::<tree::T32a32u64>(&a),
             "T8a32a32" => tree_cmd::<tree::T8a32a32>(&a),
+            "T32u128u64" => tree_cmd::<tree::T32u128u64>(&a),
+            "T8u128u8" => tree_cmd::<tree::T8u128u8>(&a),
             t => panic!("unknown tree type {t}"),
         },
         "hset" => match a.get("type").unwrap_or("HU64") {
